@@ -20,7 +20,7 @@ replace: spif_str_new_from_buff, spif_str_new_from_ptr
 backend: sat
 loops: 2
 objbits: 9
-timeout: 200
+timeout: 400
 */
 /*@unit
 name: parse.proto_found
@@ -31,7 +31,7 @@ replace: spif_str_new_from_buff, spif_str_new_from_ptr
 backend: sat
 loops: 2
 objbits: 9
-timeout: 200
+timeout: 400
 */
 #include "vprelude.h"
 #include "env_net.h"
